@@ -135,15 +135,17 @@ def check_C07(rep, tier):
 
 def check_C06(rep, tier):
     a = run_a.run(rep, tier, ["inh", "trait"], _is_round, "C06-round")
-    e = run_e.run(rep, tier, ["mask", "pol", "del"], "C06-round",
+    e = run_e.run(rep, tier, ["mask", "pol", "del", "wrap"], "C06-round",
                   select=lambda p: (p.family == "E-mask" and not p.cls.endswith(("is_negative", "is_positive")))
-                  or _pol_base(p, ROUND_BASES))
+                  or _pol_base(p, ROUND_BASES)
+                  or (p.family == "E-wrap" and p.cls.split("|", 1)[1] in ROUND_BASES))
     cov = _explain(
         "Engine E on all 506 layouts: int, frac, floor, ceil, round, round_ties_to_even, round_to_zero equal their "
         "definitional specifications over the bits (floor = bits & -2^f; the others as case analyses over floor and "
         "floor + 1, with the overflow flag computed exactly, including 0 and 1 integer bits) wherever the pair "
         "normalises (without fraction bits: round and round_ties_to_even are the identity and never overflow), and "
-        "the checked_/wrapping_ forms are Some/None resp. the value of the overflowing_ ones. " +
+        "the checked_/wrapping_ forms are Some/None resp. the value of the overflowing_ ones; the rounding methods "
+        "of the Fixed trait and of Wrapping<F> are the inherent (wrapping) ones. " +
         "Engine A: the checked/saturating/wrapping/overflowing rounding forms, int, frac and round_to_zero are "
         "panic-free for every value (including 0 and 1 integer bits); ceil/floor/round reach only their documented "
         "debug overflow panic. Not decided: layouts listed as exceptions in the registry.", [a, e])
